@@ -154,6 +154,38 @@ def evaluate_ctor(case):
     return Outcome(True, True, labels)
 
 
+@st.composite
+def ctor_drawn_cases(draw, tier):
+    k = draw(st.integers(1, 8))
+    run = draw(st.sampled_from([None, None] + list(range(0, k + 3))))
+    count = draw(st.integers(0, 4))
+    motifs = draw(st.lists(st.text(alphabet="ACGT", min_size=1, max_size=k + 3), min_size=count, max_size=count))
+    return {"k": k, "run": run, "motifs": motifs if (count or draw(st.booleans())) else None}
+
+
+def evaluate_ctor_drawn(case):
+    dsw = import_dsw()
+    k, run, motifs = case["k"], case["run"], case["motifs"]
+    built = lib_call(dsw.LocalBioFilter, observed_length=k, max_homopolymer_runs=run, gc_range=None,
+                     undesired_motifs=motifs)
+    decidable = (run is None or run < k) and (motifs is None or all(len(m) <= k for m in motifs))
+    labels = ["decidable" if decidable else "not_decidable"]
+    if motifs and len(motifs) >= 2 and max(motifs) != max(motifs, key=len):
+        labels.append("longest_motif_not_lexicographic_max")
+    if isinstance(built, Raised):
+        if built.type is not ValueError:
+            return bad("LocalBioFilter(%r) raised %r" % (case, built), labels)
+        return Outcome(True, not decidable, labels + ["rejected"])
+    labels.append("accepted")
+    if not decidable:
+        detail = ("LocalBioFilter(observed_length=%d, max_homopolymer_runs=%r, undesired_motifs=%r) is accepted "
+                  "although its rules are not decidable inside one window" % (k, run, motifs))
+        if run is not None and run == k and (motifs is None or all(len(m) <= k for m in motifs)):
+            return bad(detail, labels, known=KNOWN_KEY)
+        return bad(detail, labels)
+    return Outcome(True, True, labels)
+
+
 SUBCHECKS = [
     SubCheck("strands_obey_filter", evaluate_strands, strategy=strand_cases, examples=(2500, 15000), shards=(16, 16),
              floors={"whole_sequence_checked": 150, "src:local": 200, "src:user:forbidden": 40, "src:user:set": 40,
@@ -161,6 +193,9 @@ SUBCHECKS = [
     SubCheck("constructor", evaluate_ctor, enum=(lambda tier: len(CTOR), lambda i, tier: CTOR[i]), shards=(4, 4),
              exhaustive_space="all combinations of observed length 1..8, run limit none/0..k+2 and motif-length "
                               "shapes {none, k, k-1, k+1, k+2, mixed}", rule=RULE),
+    SubCheck("constructor_drawn", evaluate_ctor_drawn, strategy=ctor_drawn_cases, examples=(3000, 30000),
+             shards=(8, 16), floors={"longest_motif_not_lexicographic_max": 200, "accepted": 300, "rejected": 300},
+             rule=RULE),
 ]
 
 TECHNIQUE = ("property-based testing (Hypothesis) over generated filters (built-in and user-defined classes) pushed "
